@@ -442,6 +442,11 @@ func recoverEngine(logger log.Logger, expr parser.Expr, errp *error) {
 
 		level.Error(logger).Log("msg", "runtime panic in engine", "expr", expr.String(), "err", e, "stacktrace", string(buf))
 		*errp = errors.Wrap(err, "unexpected error")
+	case error:
+		// A panic must never be turned into a successful (empty) result.
+		*errp = errors.Wrap(err, "unexpected error")
+	default:
+		*errp = errors.Newf("unexpected error: %v", e)
 	}
 }
 
